@@ -361,6 +361,19 @@ func (c *Ctx) smtInst(o *Obligation) (string, bool) {
 			}
 			continue
 		}
+		if n == 2 && ((q.sorts[0] == SInt && q.sorts[1] == "Str") || (q.sorts[0] == "Str" && q.sorts[1] == SInt)) {
+			// one index, one string key (facts about a list of maps)
+			for _, v := range cs {
+				for _, w := range strCands {
+					if q.sorts[0] == SInt {
+						insts = append(insts, q.instantiate([]string{v, w}))
+					} else {
+						insts = append(insts, q.instantiate([]string{w, v}))
+					}
+				}
+			}
+			continue
+		}
 		if !allInt || n > 2 {
 			continue
 		}
@@ -405,6 +418,23 @@ func (c *Ctx) smtInst(o *Obligation) (string, bool) {
 		}
 	}
 	flush(insts)
+	// second round: the universal facts at the first witnesses (those of the instances at the goal's
+	// own skolems come first) — `r[k] == blocks[w]` is only useful together with what is known about
+	// blocks[w]
+	if nw := len(witnesses); nw > 0 {
+		if nw > 6 {
+			nw = 6
+		}
+		var more []string
+		for _, q := range hyps {
+			if len(q.names) == 1 && q.sorts[0] == SInt {
+				for _, w := range witnesses[:nw] {
+					more = append(more, q.instantiate([]string{w}))
+				}
+			}
+		}
+		flush(more)
+	}
 	// the negated goal: ground instances for an existential goal
 	var goalAsserts []string
 	if op, as := splitTop(goal); op == "exists" && len(as) == 2 {
@@ -419,11 +449,15 @@ func (c *Ctx) smtInst(o *Obligation) (string, bool) {
 			// witness candidates: the witnesses of the hypotheses first, then skolems and program
 			// variables (and their successors); kept small — the instances are squared
 			wc := append([]string{}, witnesses...)
-			if len(wc) > 8 {
-				wc = wc[:8]
+			maxW, maxC := 8, 14
+			if len(names) == 1 {
+				maxW, maxC = 400, 420 // one ground instance per witness: cheap
+			}
+			if len(wc) > maxW {
+				wc = wc[:maxW]
 			}
 			for _, v := range cs {
-				if len(wc) >= 14 {
+				if len(wc) >= maxC {
 					break
 				}
 				if strings.Contains(v, "|sk!") || strings.Contains(v, ".t") || strings.HasPrefix(v, "|p.") || v == "0" {
